@@ -57,6 +57,7 @@ type Extractor struct {
 	seq         int
 	loops       map[*ssa.Function]map[*ssa.BasicBlock]bool
 	sinkOfField map[string]string // output buffer field -> name of the sink that appends to it
+	EndSink     string            // the sink whose buffer the dump places last (end-of-script lines)
 }
 
 // NewExtractor finds the converter type of a back end (the type whose pointer
@@ -131,6 +132,7 @@ func NewExtractor(w *World, role string) (*Extractor, error) {
 	if len(x.Sinks) == 0 {
 		return nil, fmt.Errorf("%s: no line sink found", role)
 	}
+	x.EndSink = x.findEndSink(w, role)
 	// emitters: functions that (transitively) reach a sink
 	changed := true
 	for f := range x.Sinks {
@@ -347,6 +349,39 @@ func (x *Extractor) walkAt(fn *ssa.Function, e *env, mf *MethodFacts, via []stri
 			}
 		}
 	}
+}
+
+// findEndSink: the sink that appends to the buffer the dump method reads last.
+func (x *Extractor) findEndSink(w *World, role string) string {
+	for _, fn := range w.Funcs(role) {
+		res := fn.Signature.Results()
+		if fn.Signature.Recv() == nil || len(fn.Params) != 1 || res.Len() != 2 || !isString(res.At(0).Type()) || !isErrorType(res.At(1).Type()) {
+			continue
+		}
+		// the dump method: no parameters, (string, error), reads the output buffers
+		last := ""
+		var visit func(f *ssa.Function, depth int)
+		visit = func(f *ssa.Function, depth int) {
+			for _, b := range f.Blocks {
+				for _, ins := range b.Instrs {
+					switch y := ins.(type) {
+					case *ssa.UnOp:
+						if fa, ok := y.X.(*ssa.FieldAddr); ok && x.isConvPtr(fa.X.Type()) {
+							name := structFieldName(fa.X.Type(), fa.Field)
+							if _, isBuf := x.sinkOfField[name]; isBuf {
+								last = name
+							}
+						}
+					}
+				}
+			}
+		}
+		visit(fn, 0)
+		if last != "" {
+			return x.sinkOfField[last]
+		}
+	}
+	return ""
 }
 
 // bulkEmit: buf = append(buf, lines...) on an output buffer outside its sink.
